@@ -978,12 +978,56 @@ def c05_interleave(w, ev, slot):
         add('iter_data(obs)', t.iter_data(axis='observation'),
             [ref.vec(0, i) for i in range(ref.n(0))], R._cmp_data_item,
             'reader.iter')
-    w.case('reader.interleave', 'c05_interleave', slot, kinds=a % 32)
+    if a & 64:
+        # a suspended partition (parts are tables: compared by ids, vectors)
+        pax = (a >> 7) & 1
+        labels = {i: 'g%d' % (V.crc(salt, i) % 3) for i in ref.ids[pax]}
+        groups = {}
+        for k, i in enumerate(ref.ids[pax]):
+            groups.setdefault(labels[i], []).append(k)
+        exp_parts = [(lab, ref.take(pax, pos)) for lab, pos in groups.items()]
+
+        def cmp_part(item, want):
+            lab, tab = item
+            msg = coherence(tab, w.absent_id())
+            if msg:
+                return 'part %r incoherent: %s' % (lab, msg)
+            if lab != want[0]:
+                return 'label %r, expected %r' % (lab, want[0])
+            return diff_ref(Snap(tab), want[1], check_type=False)
+        add('partition', t.partition(lambda i, m: labels[str(i)],
+                                     axis=AXNAME[pax]),
+            exp_parts, cmp_part, 'reader.partition')
+    w.case('reader.interleave', 'c05_interleave', slot, kinds=a % 256)
     steps = 0
     for i in range(80):
         if not readers:
             break
         code = V.crc(salt, i)
+        if code % 3 == 0 and (code // 3) % 5 == 0 and steps:
+            # an invalid request while readers are suspended: an order that
+            # names an id twice, a renaming onto an existing id; whatever
+            # comes back must not be a table with duplicate ids
+            rax = (code // 15) % 2
+            ids = ref.ids[rax]
+            if len(ids) >= 2:
+                w.stats['reader.interleaved_refusals'] += 1
+                for what, fn in (
+                        ('sort_order naming an id twice', lambda: t.sort_order(
+                            [ids[0]] + list(ids[:-1]), axis=AXNAME[rax])),
+                        ('update_ids onto an existing id', lambda: t.update_ids(
+                            {ids[0]: ids[1]}, axis=AXNAME[rax], strict=False,
+                            inplace=False))):
+                    try:
+                        got = fn()
+                    except Exception:  # noqa
+                        continue
+                    msg = coherence(got, w.absent_id())
+                    w.fail('reader.refusal.incoherent' if msg else
+                           'reader.refusal.accepted', '%s (with lazily '
+                           'evaluated readers suspended) was accepted%s'
+                           % (what, ': ' + msg if msg else ''))
+            continue
         if code % 3 == 0:
             _poke(t, ref, code // 3)
             w.stats['reader.interleaved_pokes'] += 1
